@@ -9,10 +9,10 @@ SPEC = {
                      'theories/C10/CborSpec.v', 'theories/Wire/Item.v', 'theories/Base/Outcome.v', 'theories/Gen/Consts.v'],
     'harness': 'wirecbor',
     'args': {
-        'quick': ['-enc', 500, '-ref', 500, '-mut', 350, '-rand', 350, '-first', 3, '-skip', 350, '-leaf', 300],
-        'thorough': ['-enc', 8000, '-ref', 8000, '-mut', 6000, '-rand', 6000, '-first', 12, '-skip', 6000, '-leaf', 4000],
+        'quick': ['-enc', 500, '-ref', 500, '-mut', 350, '-rand', 350, '-first', 3, '-skip', 350, '-leaf', 300, '-transport', 200],
+        'thorough': ['-enc', 8000, '-ref', 8000, '-mut', 6000, '-rand', 6000, '-first', 12, '-skip', 6000, '-leaf', 4000, '-transport', 3000],
     },
-    'search_args': ['-enc', 4000, '-ref', 4000, '-mut', 3000, '-rand', 3000, '-first', 6, '-skip', 3000, '-leaf', 2000],
+    'search_args': ['-enc', 4000, '-ref', 4000, '-mut', 3000, '-rand', 3000, '-first', 6, '-skip', 3000, '-leaf', 2000, '-transport', 1500],
     'assumptions': [
         'the model of the cbor driver, of the generic code decoding into interface{} and of bytesDecReader is hand written; it is tied to the source by running it (vm_compute) on the inputs the real Encoder/Decoder ran (harness/cmd/wirecbor), including all 256 first bytes and all 65536 half floats',
         'hardware float conversions/arithmetic (CVTSS2SD, CVTSD2SS, CVTSI2SD, ADDSD, DIVSD, MULSD, CVTTSD2SQ) are modelled on bit patterns and tied by the leaf stream, not proved against IEEE-754',
